@@ -168,6 +168,7 @@ std::vector<DevEv> extract(const RunData& rd, hz::RunResult* res) {
   refenh::Decoder rxDec;
   int txFirst = -1;
   std::deque<DevEv> fifo;   // symbols read but not yet looked at by the protocol layer
+  int64_t lastOpenT = -(1LL << 60);
   auto flush = [&]() { while (!fifo.empty()) { DevEv d = fifo.front(); fifo.pop_front(); d.lastOfChunk = fifo.empty(); out.push_back(d); } };
   for (size_t i = 0; i < rd.hist.evs.size(); i++) {
     const Ev& e = rd.hist.evs[i];
@@ -193,10 +194,12 @@ std::vector<DevEv> extract(const RunData& rd, hz::RunResult* res) {
               d.arb = ev.arb;
               fifo.push_back(d);
             } else if (ev.kind == refenh::Event::RESET || (ev.kind == refenh::Event::DIAG && ev.cmd != 0)) {
-              // adapter reset or error frame: a running arbitration is over, ebusd knows about a device problem
+              // adapter reset or error frame: a running arbitration is over, ebusd knows about a device problem.
+              // (the RESETTED that answers the INIT request after an open is the normal handshake)
+              if (ev.kind == refenh::Event::RESET && e.t - lastOpenT < 3 * sim::SEC) continue;
               DevEv x = d;
               x.type = DevEv::IOERR;
-              fifo.push_back(x);
+              if (fifo.empty()) out.push_back(x); else fifo.push_back(x);
             }
           }
         }
@@ -220,7 +223,7 @@ std::vector<DevEv> extract(const RunData& rd, hz::RunResult* res) {
         break;
       }
       case sim::EV_WRITE:
-        flush();
+        // symbols that were read but not yet looked at stay queued: ebusd may well write with unprocessed bytes buffered
         if (!rd.bc.enhanced) {
           for (uint8_t b : e.bytes) { d.type = DevEv::TX; d.b = b; out.push_back(d); }
         } else {
@@ -238,19 +241,24 @@ std::vector<DevEv> extract(const RunData& rd, hz::RunResult* res) {
         }
         break;
       case sim::EV_POLL:
-        if (e.a == 0 && e.b == 1) { flush(); d.type = DevEv::TIMEOUT; out.push_back(d); }   // a full length wait without data
-        else if (e.a < 0) { flush(); d.type = DevEv::IOERR; out.push_back(d); }
+        if (e.a == 0 && e.b == 1) { d.type = DevEv::TIMEOUT; out.push_back(d); }   // a full length wait without data
+        else if (e.a < 0) { d.type = DevEv::IOERR; out.push_back(d); }
         break;
       case sim::EV_FAULT:
         // read errors and early poll returns are retried by the transport; the others are device errors known to ebusd
         if (e.s == "writeerr" || e.s == "writeshort" || e.s == "pollerr" || e.s == "pollhup" || e.s == "polleintr" ||
-            e.s == "hup") { flush(); d.type = DevEv::IOERR; out.push_back(d); }
+            e.s == "hup") { d.type = DevEv::IOERR; out.push_back(d); }
         else { d.type = DevEv::OTHER; out.push_back(d); }
         break;
       case sim::EV_CLOSE: fifo.clear(); d.type = DevEv::CLOSED; rxDec.reset(); txFirst = -1; out.push_back(d); break;
-      case sim::EV_OPEN: fifo.clear(); d.type = DevEv::OPENED; rxDec.reset(); txFirst = -1; out.push_back(d); break;
+      case sim::EV_OPEN: lastOpenT = e.t; fifo.clear(); d.type = DevEv::OPENED; rxDec.reset(); txFirst = -1; out.push_back(d); break;
       case sim::EV_DEVSTATUS:
         if (e.s.find("overflow") != std::string::npos) { fifo.clear(); d.type = DevEv::IOERR; out.push_back(d); }
+        break;
+      case sim::EV_STATUS:
+        // enhanced device: a deadline that expires while only the first half of a two byte sequence has arrived is a
+        // timeout for ebusd although no poll timed out; ebusd's own timeout report is accepted in exactly that situation
+        if (rd.bc.enhanced && e.b == -5 && rxDec.pendingFirst()) { d.type = DevEv::TIMEOUT; out.push_back(d); }
         break;
       case sim::EV_REQUEST:
       case sim::EV_MESSAGE:
@@ -355,6 +363,15 @@ class Monitor {
     cands.clear();
     for (auto& m : pendingMasters(qq)) cands.emplace_back(m);
     nExchanges++;
+  }
+  // an exchange that failed is over: ebusd is bound to silence until the next SYN (AUTO-SYN excepted)
+  void closeFailedOwn() {
+    if (!own || cands.empty()) return;
+    for (auto& c : cands) if (c.st != MasterRef::FAILED) return;
+    silent = true;
+    silentWhy = cands[0].failWhy[0] ? cands[0].failWhy : "failed";
+    own = false;
+    cands.clear();
   }
   void noteValidIfAny() {
     // called after every step of the own exchange: record the validity point once
@@ -502,9 +519,12 @@ void Monitor::onTx(const DevEv& d) {
   char buf[200];
   if (b != rd.hc.own) {
     snprintf(buf, sizeof(buf), "wrote %02x while passive (not the own address, no exchange, no answer due)", b);
-    // an ACK/NAK/response for a telegram that has no registered answer belongs to answer mode
-    if (pmComplete && !slave.master.empty() && slave.st == SlaveRef::NONE)
+    // an ACK/NAK/response after a complete telegram to an own address belongs to answer mode
+    bool toOwn = pmComplete && slave.master.size() >= 2 && (slave.master[1] == rd.hc.own || slave.master[1] == ref::slaveOf(rd.hc.own));
+    if (toOwn && slave.st == SlaveRef::NONE)
       violate("C15", "answered-unregistered", "passive", d, buf);
+    else if (toOwn)
+      violate("C15", "answer-continued-after-give-up", slave.st == SlaveRef::DONE ? "after-completion" : "after-failure", d, buf);
     else
       violate("C03", "unsolicited-write", silent ? silentWhy : "passive", d, buf);
     echoPending = b;
@@ -617,9 +637,11 @@ void Monitor::onRx(const DevEv& d) {
   lastRxT = d.t;
   if (rd.bc.enhanced && d.arb) {
     // arbitration result reported by the adapter
+    bool wasArmed = enhArbArmed;
     enhArbArmed = false;
     if (d.arb == refenh::ARB_WON) {
-      if (!anyPending(b)) violate("C03", "arbitration-without-request", "no-pending-request", d, "the adapter won an arbitration that ebusd had requested without a pending request");
+      // a result for a request that ebusd had cancelled in the meantime is a race of the adapter protocol, not a transmission of ebusd
+      if (!anyPending(b) && wasArmed) violate("C03", "arbitration-without-request", "no-pending-request", d, "the adapter won an arbitration that ebusd had requested and not cancelled although no request is pending");
       pm.clear(); pmDead = true;
       startOwn(b);
       lastRxWasSyn = lastRxWasSynChunkEnd = false;
@@ -710,6 +732,7 @@ void Monitor::onRx(const DevEv& d) {
   if (own) {
     for (auto& c : cands) c.onRx(b);
     noteValidIfAny();
+    closeFailedOwn();
     return;
   }
   passiveRx(b, d);
@@ -826,7 +849,9 @@ void Monitor::onOther(const DevEv& d) {
 
 void Monitor::run() {
   std::vector<DevEv> evs = extract(rd, res);
+  bool dbg = getenv("SIM_DEBUG") != nullptr;
   for (const DevEv& d : evs) {
+    if (dbg && d.type != DevEv::OTHER) fprintf(stderr, "MON %.3f type=%d b=%02x arb=%d last=%d | own=%d echo=%d kind=%d silent=%d gen=%d lockout=%d slave=%d\n", d.t / 1e6, d.type, d.b, d.arb, d.lastOfChunk, own, echoPending, echoKind, silent, isSynGenerator, lockout, slave.st);
     switch (d.type) {
       case DevEv::TX: onTx(d); break;
       case DevEv::RX: onRx(d); break;
@@ -860,7 +885,7 @@ void Monitor::run() {
       case DevEv::CLOSED:
       case DevEv::OPENED:
         resetBusKnowledge(d.type == DevEv::IOERR ? "device-error" : d.type == DevEv::CLOSED ? "device-closed" : "device-opened");
-        if (d.type == DevEv::OPENED) { lockout = 0; isSynGenerator = false; lastRxT = -1; }
+        if (d.type == DevEv::OPENED) { lockout = 0; lastRxT = -1; }   // the SYN generator role may persist across a reopen
         break;
       case DevEv::OTHER: onOther(d); break;
     }
